@@ -32,6 +32,8 @@ pub const NEGATIONS: &[&str] = &[
     "a", "a/b", "a/b/**", "**/b/**", "(?i)**/A/**", "**/[ab]/**", "**/[!a]", "**/*.{rs,md}", "**/{.git,target}/**",
     "**/{lib,main}.rs", "<*/:0,1>*", "<*/:0,2>*", "<*/*/:1,>*", "**/金/**", "**/a.b", "?", "??/**", "**/?", "**/?/**",
     "a/**/b", "**/a/*/**", "{**/a/**,**/b}", "**/<a/:1,2>*", "**/a*/**", "**/*a/**", "$/**", "**/$",
+    "<[0-9]:1,>", "<[a-z]:1,>", "{*.md,<[a-z]:1,>}", "<?:1,>", "<[a-zA-Z]:1,>", "{<[0-9]:1,>,*.rs}", "<a:1,>", "<[!.]:1,>",
+    "<[0-9]:2,>", "<[a-z]:1,3>", "{{a/**,**/*.rs},b}", "{x,{**/.git/**,**/*.md}}", "{{a,b}/**,c}", "<{a,b}:1,>",
 ];
 
 pub fn parse_doc(expr: &str) -> Option<Ast> {
